@@ -222,7 +222,7 @@ func c06() *core.Check {
 		},
 		One: func(w *core.Worker, c core.Case) {
 			s := c.In
-			if len(s) > 1<<16 {
+			if len(s) > 1<<17 {
 				return
 			}
 			w.Eval(1)
